@@ -13,6 +13,7 @@ package vrt
 import (
 	"fmt"
 	"runtime"
+	"sort"
 	"strings"
 	"sync"
 	"unsafe"
@@ -636,6 +637,7 @@ func Run(cfg RunConfig, body func(s *Sched)) *Exec {
 	}
 	races0 := raceErrors()
 	closedChans = closedChans[:0]
+	resetGlobals()
 	body(s)
 	if len(s.threads) == 0 {
 		return &Exec{}
@@ -652,6 +654,61 @@ func Run(cfg RunConfig, body func(s *Sched)) *Exec {
 	}
 	x.Races = raceErrors() - races0
 	return x
+}
+
+// Package-level state of the instrumented packages: the rewriter registers, per variable, how to
+// put it back into its initial state (see cmd/vinstr resetDecl). Run does this before every
+// execution, so that an execution that was cut short (state cache, deadlock, bound) cannot leave a
+// locked package-level mutex or a half-filled package-level pool behind for the next one, and a
+// recorded schedule replays from the same state it was found in.
+type resetEntry struct {
+	pkgSeq, idx int
+	f           func()
+}
+
+var resetPkgs []string
+
+var resets []resetEntry
+var resetSorted bool
+
+// RegisterReset is called from generated init functions; idx is the variable's position in its
+// package's initialisation order (-1: no initialiser, zeroed first).
+func RegisterReset(pkg string, idx int, f func()) {
+	seq := -1
+	for i, p := range resetPkgs {
+		if p == pkg {
+			seq = i
+		}
+	}
+	if seq < 0 {
+		seq = len(resetPkgs)
+		resetPkgs = append(resetPkgs, pkg)
+	}
+	resets = append(resets, resetEntry{seq, idx, f})
+	resetSorted = false
+}
+
+// Zero sets *p to the zero value of its type.
+func Zero[T any](p *T) {
+	var z T
+	*p = z
+}
+
+func resetGlobals() {
+	if !resetSorted {
+		// registration order is package dependency order (init functions); inside a package the
+		// files register in file order, which is re-sorted here into initialisation order
+		sort.SliceStable(resets, func(i, j int) bool {
+			if resets[i].pkgSeq != resets[j].pkgSeq {
+				return resets[i].pkgSeq < resets[j].pkgSeq
+			}
+			return resets[i].idx < resets[j].idx
+		})
+		resetSorted = true
+	}
+	for _, r := range resets {
+		r.f()
+	}
 }
 
 //go:norace
